@@ -135,14 +135,14 @@ theorem call_boot {fl : Bool} {tmpl : Term} {max : Nat} {prog : List Term} (hpro
   exact toW3 ⟨.alts rfl (Nat.pos_iff_ne_zero.1 hst.2.1) hshape ⟨N, σ1, π, D, G', hN, hW1, hcg', hgr', hco', hq, hgD, hrel⟩ hs,
     hst.nextId, Nat.le_refl _⟩
 
-/-- the clause `call/1` compiles for the instantiated goal `g'` against the reference's frames for
-    `call(g')`: the variables of `g'` become relevant variables -/
+/-- a clause `call/1` compiles for the instantiated goal `g'` (for the top-level disjunct `dj`)
+    against the reference's frames for that disjunct: the variables of `g'` become relevant variables -/
 theorem call_item {fl : Bool} {tmpl : Term} {N : Nat} {env : Env} {σ : Subst} {π : Nat → Nat} {D : Nat → Prop}
-    {nv d : Nat} {g' : Term} (hW : SimW tmpl N env σ π D nv) (hb : bodyS fl g' = true) (hw : wfT g' = true)
-    (hgv : ∀ v, g'.hasVar v = true → RV σ D v) :
-    SimW tmpl N env σ π (fun v => D v ∨ RV σ D v) nv ∧ InD (fun v => D v ∨ RV σ D v) (qHead g') ∧
-    AltRel fl σ π (fun v => D v ∨ RV σ D v) nv d (qHead g') (clauseOf (qClause g')) (qClause g')
-      (some (.frames (SLD.bodyFrames false (g'.rename π) d))) := by
+    {nv d : Nat} {g' dj : Term} {cl : Clause} (hW : SimW tmpl N env σ π D nv)
+    (hgv : ∀ v, g'.hasVar v = true → RV σ D v)
+    (hdv : ∀ v, dj.hasVar v = true → g'.hasVar v = true) (hcr : CRel fl cl (qHead g') dj) :
+    AltRel fl σ π (fun v => D v ∨ RV σ D v) nv d (qHead g') cl (SLD.rule (qHead g') dj)
+      (some (.frames (SLD.bodyFrames false (dj.rename π) d))) := by
   obtain ⟨hW2, hrv2⟩ := simW_addRV hW
   have hσg : ∀ v, g'.hasVar v = true → σ v = .var v := by
     intro v hv'
@@ -153,18 +153,16 @@ theorem call_item {fl : Bool} {tmpl : Term} {N : Nat} {env : Env} {σ : Subst} {
     intro t ht
     have : t.subst σ = t.subst (fun v => .var v) := subst_congr t _ _ (fun v hv' => hσg v (ht v hv'))
     simp only [img, this, Term.subst_id]
-  have hcv : ∀ x, CV (qClause g') x → g'.hasVar x = true := by
+  have hcv : ∀ x, CV (SLD.rule (qHead g') dj) x → g'.hasVar x = true := by
     rintro x (hx | hx)
     · exact (qHead_hasVar g' x).1 hx
-    · exact hx
-  refine ⟨hW2, fun v hv' => Or.inr (hgv v ((qHead_hasVar g' v).1 hv')), ?_⟩
-  have hcast : ∀ Fs : List SLD.Frame, AltRel fl σ π (fun v => D v ∨ RV σ D v) nv d (qHead g') (clauseOf (qClause g')) (qClause g')
+    · exact hdv x hx
+  have hcast : ∀ Fs : List SLD.Frame, AltRel fl σ π (fun v => D v ∨ RV σ D v) nv d (qHead g') cl (SLD.rule (qHead g') dj)
       (some (.frames (Fs ++ ([] : List Nat).map skipF))) →
-      AltRel fl σ π (fun v => D v ∨ RV σ D v) nv d (qHead g') (clauseOf (qClause g')) (qClause g') (some (.frames Fs)) := by
+      AltRel fl σ π (fun v => D v ∨ RV σ D v) nv d (qHead g') cl (SLD.rule (qHead g') dj) (some (.frames Fs)) := by
     intro Fs h; simpa using h
   apply hcast
-  refine .frames (fun x => π x + nv) (2 * nv) (tauC g' π nv) []
-    (clauseOf_spec (qClause g') (clauseC_of_S (clauseS_qClause hb hw))).2 rfl (by omega)
+  refine .frames (fun x => π x + nv) (2 * nv) (tauC g' π nv) [] hcr rfl (by omega)
     (fun x y hx hy hxy => hW.inj x y (hgv x (hcv x hx)) (hgv y (hcv y hy))
       (by have : π x + nv = π y + nv := hxy
           omega))
@@ -190,7 +188,7 @@ theorem call_item {fl : Bool} {tmpl : Term} {N : Nat} {env : Env} {σ : Subst} {
       subst hz
       exact hπg x (hcv x hx))
     ?_
-  show FrRel _ d (SLD.conjuncts g') (SLD.bodyFrames false (g'.rename π) d)
+  show FrRel _ d (SLD.conjuncts dj) (SLD.bodyFrames false (dj.rename π) d)
   simp only [SLD.bodyFrames, Bool.false_eq_true, if_false, conjuncts_rename, List.map_map]
   have key : ∀ Bs : List Term, (∀ bg ∈ Bs, ∀ v, bg.hasVar v = true → g'.hasVar v = true) →
       FrRel (fun bg => (bg.rename (fun x => π x + nv)).subst (tauC g' π nv)) d Bs
@@ -204,7 +202,36 @@ theorem call_item {fl : Bool} {tmpl : Term} {N : Nat} {env : Env} {σ : Subst} {
         (fun _ => rfl) (ih (fun b hb' => hB b (by simp [hb'])))
       simp only [tauC_a (fun v hv' => hB bg (by simp) v hv')] at this
       exact this
-  exact key _ (fun bg hbg v hv' => conjuncts_vars hbg hv')
+  exact key _ (fun bg hbg v hv' => hdv v (conjuncts_vars hbg hv'))
+
+/-- the clauses `call/1` compiles for the instantiated goal `g'`, one per top-level disjunct, against
+    the alternatives of the reference's `call(g')` -/
+theorem call_items {fl : Bool} {tmpl : Term} {N : Nat} {env : Env} {σ : Subst} {π : Nat → Nat} {D : Nat → Prop}
+    {nv : Nat} (d : Nat) {g' : Term} (hW : SimW tmpl N env σ π D nv)
+    (hgv : ∀ v, g'.hasVar v = true → RV σ D v) {cs : List Clause}
+    (hrel : Forall2 (fun cl dj => CRel fl cl (qHead g') dj) cs (SLD.disjuncts g')) :
+    SimW tmpl N env σ π (fun v => D v ∨ RV σ D v) nv ∧ InD (fun v => D v ∨ RV σ D v) (qHead g') ∧
+    ∃ its : List Item, its.map (·.1) = cs ∧
+      its.filterMap (·.2.2) = (SLD.disjuncts (g'.rename π)).map (fun x => .frames (SLD.bodyFrames false x d)) ∧
+      AltsRel fl σ π (fun v => D v ∨ RV σ D v) nv d (qHead g') its := by
+  obtain ⟨hW2, _⟩ := simW_addRV hW
+  refine ⟨hW2, fun v hv' => Or.inr (hgv v ((qHead_hasVar g' v).1 hv')), ?_⟩
+  rw [disjuncts_rename, List.map_map]
+  have key : ∀ (cs : List Clause) (ds : List Term), (∀ dj ∈ ds, ∀ v, dj.hasVar v = true → g'.hasVar v = true) →
+      Forall2 (fun cl dj => CRel fl cl (qHead g') dj) cs ds →
+      ∃ its : List Item, its.map (·.1) = cs ∧
+        its.filterMap (·.2.2) = ds.map ((fun x => SLD.Alt.frames (SLD.bodyFrames false x d)) ∘ Term.rename π) ∧
+        AltsRel fl σ π (fun v => D v ∨ RV σ D v) nv d (qHead g') its := by
+    intro cs ds hds h
+    induction h with
+    | nil => exact ⟨[], rfl, rfl, .nil⟩
+    | @cons cl dj cs' ds' hd _ ih =>
+      obtain ⟨its, h1, h2, h3⟩ := ih (fun dj' hdj' => hds dj' (by simp [hdj']))
+      refine ⟨(cl, SLD.rule (qHead g') dj, some (.frames (SLD.bodyFrames false (dj.rename π) d))) :: its, ?_, ?_, ?_⟩
+      · simp [h1]
+      · simp [h2]
+      · exact .cons (call_item hW hgv (hds dj (by simp)) hd) h3
+  exact key cs _ (fun dj hdj v hv' => disjuncts_vars hdj hv') hrel
 
 theorem cont_run {fl : Bool} (tmpl : Term) (max : Nat) (prog : List Term) (hprog : ∀ c ∈ prog, clauseS fl c = true) :
     ∀ (fuel : Nat) (K : Cont) (env : Env) (m : MS) (p : Pr) (m1 : MS),
@@ -460,31 +487,36 @@ theorem cont_run {fl : Bool} (tmpl : Term) (max : Nat) (prog : List Term) (hprog
           cases g0 with
           | var v => exact absurd rfl (hnv0 v)
           | _ => intro v hv'; simp [Term.subst] at hv'
-        rw [callGoal_ok x K' env1 m g0 g' hres hnv0 happ hb hw] at harr
-        have hp : p = ({ id := m.user.nextId, delayed := [Thunk.clause (clauseOf (qClause g')) (argList (qHead g')) K' env1 m.user.nextId] } : Pr) := by
-          have : p = (clausesCall [clauseOf (qClause g')] (argList (qHead g')) K' env1 m).1 := by rw [harr]
-          rw [this]; simp [clausesCall, freshId]
-        have hm1 : m1 = { m with user := { m.user with nextId := m.user.nextId + 1 } } := by
-          have : m1 = (clausesCall [clauseOf (qClause g')] (argList (qHead g')) K' env1 m).2 := by rw [harr]
-          rw [this]; rfl
+        obtain ⟨cs, hrel, hcg0⟩ := callGoal_okM x K' env1 m g0 g' hres hnv0 happ hb hw
+        rw [hcg0] at harr
         have hix : img σ1 π x = g'.rename π := by rw [hg']; rfl
         have hrnv : ∀ v, g'.rename π ≠ .var v := by
           intro v hv'
           cases g' with
           | var w => exact absurd rfl (hg'nv w)
           | _ => simp [Term.rename, Term.subst] at hv'
-        rw [hix, solve_call1 _ _ _ _ _ _ _ _ _ (fl := fl) (by rw [bodyS_rename]; exact hb)
-          (by rw [wfT_rename]; exact hw) hrnv] at hs
-        rw [hp, hm1]
+        have htop : ∀ f, g'.rename π ≠ .app f .nil := by
+          intro f hf
+          obtain ⟨as', rfl, has⟩ := rename_eq_app hf
+          rw [subst_eq_nil has] at hw
+          simp [wfT] at hw
+        rw [hix, solve_call1M _ _ _ _ _ _ _ _ _ (fl := fl) (by rw [dbodyS_rename]; exact hb) htop hrnv] at hs
         -- the variables of the instantiated goal become relevant
         have hgv : ∀ v, g'.hasVar v = true → RV σ1 D v := fun v hv' => by rw [hg'] at hv'; exact vars_subst_rv hxD hv'
-        obtain ⟨hW2, hgD2, hitem⟩ := call_item (fl := fl) (d := d) hW1 hb hw hgv
+        obtain ⟨hW2, hgD2, its, hits1, hits2, hitsR⟩ := call_items (fl := fl) d hW1 hgv hrel
+        have hp : p = ({ id := m.user.nextId, delayed := its.map (fun it => Thunk.clause it.1 (argList (qHead g')) K' env1 m.user.nextId) } : Pr) := by
+          have : p = (clausesCall cs (argList (qHead g')) K' env1 m).1 := by rw [harr]
+          rw [this, ← hits1]; simp [clausesCall, freshId, List.map_map, Function.comp_def]
+        have hm1 : m1 = { m with user := { m.user with nextId := m.user.nextId + 1 } } := by
+          have : m1 = (clausesCall cs (argList (qHead g')) K' env1 m).2 := by rw [harr]
+          rw [this]; rfl
+        rw [hp, hm1]
         have hgr2 : GRel mo lv σ1 π (fun v => D v ∨ RV σ1 D v) G' R' :=
           hgr1.step_id (fun v hv' => Or.inl hv') (fun _ _ => rfl)
-        refine toW3 ⟨.alts (its := [(clauseOf (qClause g'), qClause g', some (.frames (SLD.bodyFrames false (g'.rename π) d)))])
+        refine toW3 ⟨.alts (its := its)
           (g := qHead g') rfl (Nat.pos_iff_ne_zero.1 hst.2.1) (qHead_shape g')
-          ⟨N, σ1, π, _, G', hN, hW2, hcg', hgr2, hco', hq1, hgD2, .cons hitem .nil⟩
-          (by simpa [SLD.bodyFrames] using hs), hst.nextId, Nat.le_refl _⟩
+          ⟨N, σ1, π, _, G', hN, hW2, hcg', hgr2, hco', hq1, hgD2, hitsR⟩
+          (by rw [hits2]; exact hs), hst.nextId, Nat.le_refl _⟩
     have hshape := shape_of_hornGoal hhg
     rcases hornGoal_shape hhg with ⟨fn, rfl, hfn⟩ | ⟨a, b, rfl⟩ | ⟨fn, as, rfl, hu, _⟩
     · -- an atom: `true` or a user predicate
